@@ -228,6 +228,9 @@ class Ctx:
             validated += v[-1][1]
             st += r.distinct
             gen += r.generated
+            if len(r.tuples("REJ")) != r.out.count('"REJ"'):          # every printed rejection must have been parsed
+                raise tlc.MachineryError("trace validation %s: %d rejection tuples parsed, %d printed" % (
+                    module, len(r.tuples("REJ")), r.out.count('"REJ"')))
             seen = set()
             for t in r.tuples("REJ"):
                 if t[1] in seen:
